@@ -157,8 +157,8 @@ Let H_err := proj1 (proj2 (proj2 (proj2 (proj2 (proj2 HT))))).
 Let H_suf := proj1 (proj2 (proj2 (proj2 (proj2 (proj2 (proj2 HT)))))).
 Let H_ok := proj2 (proj2 (proj2 (proj2 (proj2 (proj2 (proj2 HT)))))).
 
-(* significant tokens: same type, same value up to white space *)
-Definition tokrel (a b : tok) : Prop := fst a = fst b /\ strip S (snd a) = strip S (snd b).
+(* significant tokens: same type, values related by RS (equal outside their white-space runs, runs at the same places) *)
+Definition tokrel (a b : tok) : Prop := fst a = fst b /\ RS (snd a) (snd b).
 
 Inductive Lrel0 : list tok -> list tok -> Prop :=
 | L0_nil : Lrel0 [] []
@@ -167,6 +167,9 @@ with Lrel : list tok -> list tok -> Prop :=
 | L_direct l l' : Lrel0 l l' -> Lrel l l'
 | L_run w w' l l' : w <> [] -> w' <> [] -> forallb ws_tok w = true -> forallb ws_tok w' = true ->
     Lrel0 l l' -> Lrel (w ++ l) (w' ++ l').
+
+Scheme Lrel0_mind := Minimality for Lrel0 Sort Prop
+  with Lrel_mind := Minimality for Lrel Sort Prop.
 
 Lemma kw_lookup_not_ws w : forall ds,
   forallb (fun d => forallb (fun e : text * ttype => negb (tin (snd e) T_Whitespace)) d) ds = true ->
@@ -259,6 +262,20 @@ Proof.
   apply kw_lookup_not_ws. exact H_kws.
 Qed.
 
+(* the boundary after a token of k >= 1 characters is not inside a run when the state after it is not interior *)
+Lemma after_bnd k p t0 : 1 <= k -> interior S (after k (mkSt p t0)) = false ->
+  bnd S (firstn k t0) (skipn k t0).
+Proof.
+  intros Hk Hi. unfold bnd. unfold interior, snext, after in Hi. cbn [prev rest] in Hi.
+  destruct (firstn k t0) as [|d v] eqn:E.
+  - reflexivity.
+  - assert (Hl : mem_opt (push_prev p (d :: v)) S = lastS S (d :: v)).
+    { unfold lastS, push_prev. rewrite <- fold_left_rev_right. destruct (rev (d :: v)) as [|z r] eqn:Er.
+      - exfalso. assert (H0 : d :: v = []) by (rewrite <- (rev_involutive (d :: v)), Er; reflexivity). discriminate.
+      - cbn [fold_right mem_opt]. reflexivity. }
+    rewrite <- Hl. exact Hi.
+Qed.
+
 Theorem lex_all : forall n t t' p p' l l', length t <= n ->
   LexSpec p t l -> LexSpec p' t' l' -> srel (mkSt p t) (mkSt p' t') -> oktext t -> oktext t' ->
   if snext_t t then Lrel l l' else Lrel0 l l'.
@@ -299,13 +316,22 @@ Proof.
         { apply (strip_prefix_eq _ (skipn k (c :: t)) _ (skipn k' (c :: t'))).
           - rewrite !firstn_skipn. apply RS_strip. constructor; assumption.
           - apply RS_strip. exact (proj1 Hafter). }
-        split; [|rewrite !mk_tok_snd; exact Hstrip].
+        assert (HRSv : RS (firstn k (c :: t)) (firstn k' (c :: t'))).
+        { apply (RS_prefix_inv S (c :: t) (c :: t') ltac:(constructor; assumption)
+                   (firstn k (c :: t)) (skipn k (c :: t)) (firstn k' (c :: t')) (skipn k' (c :: t'))).
+          - symmetry. apply firstn_skipn.
+          - symmetry. apply firstn_skipn.
+          - exact (proj1 Hafter).
+          - exact Hstrip.
+          - exact (after_bnd k p (c :: t) Hk1 (proj1 (proj2 (proj2 Hafter)))).
+          - exact (after_bnd k' p' (c :: t') Hk1' (proj2 (proj2 (proj2 Hafter)))). }
+        split; [|rewrite !mk_tok_snd; exact HRSv].
         destruct a as [ty|]; [reflexivity|]. cbn [mk_tok fst].
         assert (HRS : RS (rest (mkSt p (c :: t))) (rest (mkSt p' (c :: t')))) by (constructor; assumption).
         pose proof (first_match_value lower S rules (mkSt p (c :: t)) (mkSt p' (c :: t')) AsKeyword k k' H_free HRS Em Em' Hafter) as Hv.
         cbn [rest] in Hv. rewrite Hv. reflexivity.
       * destruct Hinv as (toks & -> & Hrec). destruct Hinv' as (toks' & -> & Hrec').
-        apply L0_sig; [exact H_err | exact H_err | split; reflexivity |].
+        apply L0_sig; [exact H_err | exact H_err | split; [reflexivity | apply RS_refl] |].
         assert (Hs2 : srel (mkSt (Some c) t) (mkSt (Some c) t')).
         { repeat split; cbn [rest prev]; [exact Ht | left; reflexivity | |];
             unfold interior; cbn [prev mem_opt]; unfold RunInvDefs.inS in Hc; rewrite Hc; reflexivity. }
